@@ -45,8 +45,10 @@ def run(ctx):
         if lc.kind == 'process':
             sends = {}
             for r in lc.recorders:
-                sends.setdefault(id(r.stmt), r)
-            ctx.floor(f'{lc.main.short}: outcome sends', len(sends), 2)
+                if r.how == 'send':
+                    sends.setdefault(id(r.stmt), r)
+            ctx.floor(f'{lc.main.short}: outcome sends', len(sends), 1 if lc.outcome_var else 2)
+            check_report_first(ctx, cls, lc, attr)
             st_of = {n.id: e for n, e in lc.state_sends}
             for r in sends.values():
                 a = r.call.args[0] if r.call.args else r.call
@@ -262,4 +264,55 @@ def check_wait_joins(ctx, cls, w, done):
                   f'{f.short} can return a true value without having joined the frontend thread: the thread stores the outcome first and the user state second, so a caller that '
                   'polls the outcome and then calls wait() reads the initial user_state after wait() returned True - and restart() passes that stale state on as init_state',
                   where=loc(f, p[-1].dst.stmt) if p else loc(f, f.node), path=path_str(p or []))
+
+
+def check_report_first(ctx, cls, lc, attr):
+    """R5 (process kinds): once the work has ended, nothing that can fail or be interrupted stands between it and the report that carries the state.
+    On the fault-free paths from the end of do_work() to the first report, every statement outside an exception handler that has a transport-fault
+    edge or is a landing point of a graceful terminate (the injector is still alive) must still be followed by a report on every path: otherwise
+    that one fault - the end marker written to a closed results pipe, a terminate arriving during the clean-up - loses the last user_state
+    although the worker ended in a way that lets it report.  (Landings inside the recording handler itself are judged by C03.R3.)"""
+    g = lc.g
+    main = lc.main
+    reports = {n.id for n, a in lc.state_sends if is_self_attr(a, attr)}
+    if not reports:
+        return
+    pm = parent_map(main.node)
+
+    def in_handler(st):
+        cur = st
+        while cur in pm:
+            cur = pm[cur]
+            if isinstance(cur, ast.ExceptHandler):
+                return True
+        return False
+    landing = {id(e) for e in lc.landing_edges()}
+    exits = {n.id for n in g.exits()}
+    seen, stack = set(), []
+    for w in lc.work_nodes:
+        stack += [e.dst for e in w.succ if is_flow(e) and e.kind != 'exc']
+    n_mid = 0
+    while stack:
+        n = stack.pop()
+        if n.id in seen or n.id in reports:
+            continue
+        seen.add(n.id)
+        if n.stmt is not None and not in_handler(n.stmt):
+            for e in n.succ:
+                fault = id(e) in landing or (e.kind == 'exc' and e.cause == 'e3')
+                if not fault:
+                    continue
+                n_mid += 1
+                p = g.find_path([e.dst], lambda x: x.id in exits, edge_ok=lambda x: is_flow(x) or x.kind == 'reraise', node_ok=lambda x: x.id not in reports)
+                role = next((last_attr(c) for c in n.calls()), None) or type(n.stmt).__name__
+                ctx.check('R5', f'{main.short}: a {"terminate landing" if e.kind == "async" else e.exc} at `{short(n.stmt, 50)}` (after the work has ended, before the report) still leads to a report',
+                          p is None, main.short, f'state-report-behind:{role}',
+                          f'`{short(n.stmt, 60)}` runs between the end of do_work() and the report that carries user_state, and a '
+                          f'{"graceful terminate landing there" if e.kind == "async" else e.exc + " raised there"} leaves {main.short} without any report: the parent keeps the stale '
+                          'user_state (and restart() passes it on) although the worker ended in a way that lets it report', where=loc(main, n.stmt),
+                          path=[n.describe(), f'--{e.kind}:{e.exc}--> {e.dst.describe()}'] + path_str(p or []))
+        for e in n.succ:
+            if is_flow(e) and e.kind != 'exc':
+                stack.append(e.dst)
+    ctx.stats.setdefault('fallible_statements_between_work_and_report', {})[main.short] = n_mid
 
